@@ -1,7 +1,8 @@
 //! search engine (C08): trajectory of the real local search (hook H3), fixpoint re-run, and the
 //! objective-order differential on schedules taken from random API histories.
 
-use crate::engine_history::{snap, HistoryEngine, S_OPS};
+use crate::engine_history::{greedy_chains, snap, HistoryEngine, S_OPS};
+use crate::inst::Act;
 use crate::gen_inst::*;
 use crate::ojson::Finding;
 use crate::runner::{CaseOutcome, Engine};
@@ -26,6 +27,11 @@ impl SearchEngine {
         cfg.max_departures = if thorough { 14 } else { 5 };
         cfg.max_total_need = if thorough { 40 } else { 11 };
         cfg.max_need = if thorough { 4 } else { 3 };
+        cfg.rush = true;
+        if thorough {
+            cfg.max_departures = 36;
+            cfg.max_total_need = 64;
+        }
         let mut hist = HistoryEngine::new("C13", tier);
         hist.cfg = cfg;
         SearchEngine { cfg, hist }
@@ -46,7 +52,7 @@ impl Engine for SearchEngine {
         v
     }
     fn rule(&self) -> String {
-        "instance with slots -> min-cost-flow start with improved depots -> real local search (build_local_search_solver) with every accepted step recorded by hook H3: each step strictly improves (unserved, violation, vehicles, costs) lexicographically, the result is the last step, a fresh solver run on the result records no step and returns the same schedule; plus: for schedules taken from a random API history the implementation's objective order equals the lexicographic order of the four getters; distinct = tape digest; non-trivial = trajectory with >= 2 steps in which some lower level got worse while a higher one improved".to_string()
+        "instance with slots -> start schedule (half of the cases: min-cost-flow start with improved depots as in the server; else a poor valid fleet spawned through the public API: one vehicle per trip and needed unit, or greedy chains ignoring maintenance) -> real local search (build_local_search_solver) with every accepted step recorded by hook H3: each step strictly improves (unserved, violation, vehicles, costs) lexicographically, the result is the last step, a fresh solver run on the result records no step and returns the same schedule, also when it is told that some other vehicle provided / received last (up to four rotations of the scan order); plus: for schedules taken from a random API history the implementation's objective order equals the lexicographic order of the four getters; distinct = tape digest; non-trivial = trajectory with >= 2 steps in which some lower level got worse while a higher one improved".to_string()
     }
     fn assumptions(&self) -> Vec<String> {
         vec!["the acceptance rule lives in the external crate rapid_solve; oracle 1 observes its effect".into(), "the fixpoint oracle is sound although the search is parallel: ParallelMinimizer scans the whole neighbourhood, the existence of an improving neighbour does not depend on iteration order".into()]
@@ -72,24 +78,55 @@ impl Engine for SearchEngine {
         o.classes = inst_classes(&cx.flat).iter().map(|s| s.to_string()).collect();
         let mut fs: Vec<Finding> = Vec::new();
         let net = cx.net.clone();
-        let start = match sut::catch(|| solver::min_cost_flow_solver::MinCostFlowSolver::initialize(net.clone()).solve().improve_depots(None)) {
+        // start schedule: the min-cost-flow solution (as the server does it), or a deliberately poor
+        // valid fleet built through the public API (one vehicle per trip and needed unit / greedy
+        // first-fit chains that ignore maintenance) so that the search has many steps to make
+        let pr: &[u32] = tape.sec(S_PARAMS).first().map(|r| r.as_slice()).unwrap_or(&[]);
+        let start_mode = pick_w(f(pr, 18), &[2, 1, 1]);
+        let built = sut::catch(|| match start_mode {
+            0 => solver::min_cost_flow_solver::MinCostFlowSolver::initialize(net.clone()).solve().improve_depots(None),
+            1 => {
+                let mut s = Schedule::empty(net.clone());
+                for i in 0..cx.flat.segs.len() {
+                    for _ in 0..cx.flat.required(i) {
+                        if let Ok((next, _)) = s.spawn_vehicle_for_path(cx.types[cx.flat.segs[i].vtype], vec![cx.act_node[&Act::Seg(i)]]) {
+                            s = next;
+                        }
+                    }
+                }
+                s
+            }
+            _ => {
+                let mut s = Schedule::empty(net.clone());
+                for chain in greedy_chains(&cx) {
+                    let nodes: Vec<_> = chain.1.iter().map(|a| cx.act_node[a]).collect();
+                    if let Ok((next, _)) = s.spawn_vehicle_for_path(cx.types[chain.0], nodes) {
+                        s = next;
+                    }
+                }
+                s
+            }
+        });
+        let start = match built {
             Ok(s) => s,
             Err(p) => {
                 o.excluded = Some(format!("start solution panics at {}", p.file()));
                 return o;
             }
         };
+        o.classes.push(["start=min_cost_flow", "start=one_vehicle_per_trip", "start=greedy_chains"][start_mode].into());
         let v0 = cx.tuple(&start);
         // ---- oracle 1: trajectory
-        let run = |s: Schedule| -> Result<(Schedule, Vec<Schedule>), sut::PanicInfo> {
+        let run_with = |s: Schedule, info: SwapInfo| -> Result<(Schedule, Vec<Schedule>), sut::PanicInfo> {
             sut::catch(|| {
                 solution::verif::enable();
                 let solver = solver::local_search::build_local_search_solver(net.clone());
-                let res = solver.solve(ScheduleWithInfo::new(s, SwapInfo::NoSwap, String::new()));
+                let res = solver.solve(ScheduleWithInfo::new(s, info, String::new()));
                 let steps: Vec<Schedule> = solution::verif::take().into_iter().filter(|(l, _)| l == "ls_step").map(|(_, s)| s).collect();
                 (res.solution().get_schedule().clone(), steps)
             })
         };
+        let run = |s: Schedule| run_with(s, SwapInfo::NoSwap);
         let (result, steps) = match run(start.clone()) {
             Ok(x) => x,
             Err(p) => {
@@ -133,6 +170,50 @@ impl Engine for SearchEngine {
                 Err(p) => fs.push(Finding { prop: "C11", msg: format!("PANIC inside the local search (re-run) at {}: {}", p.file(), p.msg.chars().take(200).collect::<String>()) }),
             }
         }
+        // ---- oracle 2b: the fixpoint does not depend on which vehicle acted last. The last-swap
+        // info only rotates the order in which the neighbourhood is scanned (the whole
+        // neighbourhood is scanned and its best member taken), so a re-run that is told another
+        // last provider / receiver must not find anything either.
+        let mut rotations = 0u64;
+        if fs.is_empty() {
+            let sn = snap(&cx, &result);
+            let tours: Vec<model::base_types::VehicleIdx> = sn.dummies.keys().copied().chain(sn.vehicles.keys().copied()).collect();
+            let n = tours.len();
+            if n >= 2 {
+                let off = pick(f(pr, 19), n);
+                let k_max = 4.min(n);
+                for k in 0..k_max {
+                    let v = tours[(off + k * n / k_max) % n];
+                    let info = match (k, pick(f(pr, 19) << 8, 4)) {
+                        (3, 1) => SwapInfo::SpawnVehicleForMaintenance(v),
+                        (3, 2) => SwapInfo::AddTripForHitchHiking(v),
+                        (3, 3) => SwapInfo::RemoveSingleNode(v),
+                        _ => SwapInfo::PathExchange(v),
+                    };
+                    rotations += 1;
+                    let info_name = match info {
+                        SwapInfo::SpawnVehicleForMaintenance(v) => format!("SpawnVehicleForMaintenance({})", v),
+                        SwapInfo::PathExchange(v) => format!("PathExchange({})", v),
+                        SwapInfo::AddTripForHitchHiking(v) => format!("AddTripForHitchHiking({})", v),
+                        SwapInfo::RemoveSingleNode(v) => format!("RemoveSingleNode({})", v),
+                        SwapInfo::NoSwap => "NoSwap".to_string(),
+                    };
+                    match run_with(result.clone(), info) {
+                        Ok((again, steps2)) => {
+                            if !steps2.is_empty() || snap(&cx, &again) != snap(&cx, &result) {
+                                fs.push(Finding { prop: "C08", msg: format!("the search stopped at {:?} although it can still improve: a re-run that is told the last swap was {} ({} tours) accepts {} more step(s) and reaches {:?}", cx.tuple(&result), info_name, n, steps2.len(), cx.tuple(&again)) });
+                                break;
+                            }
+                        }
+                        Err(p) => {
+                            fs.push(Finding { prop: "C11", msg: format!("PANIC inside the local search (re-run with {}) at {}: {}", info_name, p.file(), p.msg.chars().take(200).collect::<String>()) });
+                            break;
+                        }
+                    }
+                }
+            }
+        }
+        o.counters.insert("fixpoint_reruns_with_rotated_scan_order".into(), rotations);
         // ---- oracle 3: objective order vs lexicographic order on schedules from a random history
         let objective = solver::objective::build();
         let mut pool: Vec<Schedule> = vec![start.clone(), result.clone()];
@@ -169,6 +250,13 @@ impl Engine for SearchEngine {
         o.counters.insert("objective_pairs".into(), pairs);
         o.counters.insert("objective_pairs_with_opposed_levels".into(), opposed);
         o.counters.insert("ls_steps".into(), steps.len() as u64);
+        let providers = snap(&cx, &result);
+        let n_providers = providers.vehicles.len() + providers.dummies.len();
+        if n_providers > 32 {
+            o.classes.push("result_with_more_than_32_tours".into());
+        } else if n_providers > 16 {
+            o.classes.push("result_with_17_to_32_tours".into());
+        }
         if steps.len() >= 2 {
             o.classes.push("trajectory>=2_steps".into());
         }
